@@ -144,3 +144,10 @@ func VerifC03Shapes() {
 	nd.Assert((err1 == nil) == (err2 == nil) && out1 == out2, "second-render-identical")
 	nd.Reach("C03.shapes")
 }
+
+// VerifC03AfterFailure: a render that fails part-way leaves nothing behind: no cycle position, no
+// captured text, no assigned variable shows up in the next render of the same parsed template.
+func VerifC03AfterFailure() {
+	vAfterFailure()
+	nd.Reach("C03.afterfailure")
+}
